@@ -101,6 +101,7 @@ def run_instance(spec):
     limits = spec.get("limits", {})
     max_paths = limits.get("max_paths", 4000)
     max_s = limits.get("max_s", 900)
+    cex_stop_s = limits.get("cex_stop_s", 120)
     core.RLIMIT = limits.get("rlimit", DEFAULT_RLIMIT)  # per instance; never inherited from the previous one
     for k in core.STATS:
         core.STATS[k] = 0
@@ -210,6 +211,12 @@ def run_instance(spec):
         p[-1] = not p[-1]
         d[-1] = True
         prefix, done, check_last = p, d, True
+        if res["cex"] and time.time() - t0 > cex_stop_s and _unlisted_cex(spec, res["cex"]):
+            # counterexamples that no recorded finding explains are in hand and the instance is slow (typical
+            # of a change that also makes the solver's life hard): hand them to the replay now
+            res["exhaustive"] = False
+            res["notes"].append("stopped after %d paths: counterexamples found and %ds used" % (res["paths"], cex_stop_s))
+            break
         if res["paths"] >= max_paths or time.time() - t0 > max_s:
             res["exhaustive"] = False
             res["notes"].append("path/time limit hit after %d paths" % res["paths"])
@@ -268,6 +275,13 @@ def cvc5_verdict(smt2_text, ms=3000):
         return "unknown"
     except Exception as e:
         return "error: %s" % (str(e)[:80],)
+
+
+def _unlisted_cex(spec, cexs):
+    from symx import main as _m
+
+    known = _m.load_known()
+    return any(_m.match_known(known, spec["prop"], spec["func"], spec["cfg"], c["name"]) is None for c in cexs)
 
 
 def _pfx(ctx):
